@@ -65,7 +65,7 @@ def build(kind):
         m.add_variable('Y', 1.0)
         return m
     if kind == 'linker':
-        return LkC({'a': _M(list(SPAN), X=1.0), 'b': _M(list(SPAN), X=2.0)})
+        return LkC({'a': _M(list(SPAN), X=1.0), 'b': _M(list(SPAN), X=2.0)}, name='world')   # (a name of its own: the default is '_')
     if kind == 'mixin':
         return TA(list(SPAN), X=[1.0, 2.0, 3.0, 4.0])
     raise ValueError(kind)
@@ -135,6 +135,10 @@ def _newattr(o):
     base.add_variable('V', 1.0)
     o.baseline = base
     o.pair = ([1, 2], 'x')
+    try:
+        o.add_variable('Rec', [{'k': i} for i in range(len(SPAN))], dtype=object)   # a series of mutable records
+    except Exception:
+        pass
     # names that are fragments of the object's own bookkeeping keys ('submodels', 'span', 'index', 'names', '_attributes')
     for frag in ('sub', 'mode', 'models', 'pan', 'dex', 'name', 'attr'):
         if frag not in vars(o) and not hasattr(type(o), frag):
@@ -153,6 +157,7 @@ def op_table(kind):
         'baseline.elem': lambda o: o.baseline['V'].__setitem__(0, 5.5) if 'baseline' in vars(o) else None,
         'baseline.add_variable': lambda o: o.baseline.add_variable('W2', 1.0) if 'baseline' in vars(o) else None,
         'pair[0].append': lambda o: o.pair[0].append(9) if 'pair' in vars(o) else None,
+        'Rec[1][k]=': lambda o: vars(o)['_Rec'][1].__setitem__('k', 'changed') if '_Rec' in vars(o) else None,
         'foo.append': lambda o: o.foo['k'].append(3) if 'foo' in vars(o) else o.add_attribute('foo', {'k': [9], 'arr': np.ones(2)}),
         'foo.arr[0]=': lambda o: o.foo['arr'].__setitem__(0, 7.0) if 'foo' in vars(o) else None,
         'strict': lambda o: setattr(o, 'strict', not o.strict),
@@ -459,10 +464,15 @@ def input_aliasing(kind):
     v = next(x for x in probe.index if (probe[x] if not hasattr(probe, 'aliases') else vars(probe)['_' + x]).dtype.kind == 'f')
     n = len(SPAN)
     for path in INPUT_PATHS:
-        for flavour in ('float64', 'view', 'fortran-2d-row'):
+        for flavour in ('float64', 'view', 'fortran-2d-row', 'array.array', 'memoryview'):
             base = np.arange(1.0, 2 * n + 1.0)
-            ext = {'float64': base[:n].copy(), 'view': base[::2], 'fortran-2d-row': np.asfortranarray(np.arange(1.0, 2 * n + 1.0).reshape(2, n))[1]}[flavour]
-            keep = ext.copy()
+            import array as _array
+            raw = _array.array('d', [float(k + 1) for k in range(n)])   # a sequence that exposes its memory (buffer protocol)
+            ext = {'float64': base[:n].copy(), 'view': base[::2], 'fortran-2d-row': np.asfortranarray(np.arange(1.0, 2 * n + 1.0).reshape(2, n))[1],
+                   'array.array': raw, 'memoryview': memoryview(raw)}[flavour]
+            if flavour in ('array.array', 'memoryview') and path in ('values', 'from_dataframe', 'ctor'):
+                continue
+            keep = np.array(ext, dtype=float).copy()
             pair = []
             try:
                 for _ in range(2):
@@ -511,7 +521,10 @@ def input_aliasing(kind):
                 out.append(('input:caller-array-written:%s' % path, 'caller array untouched', np.asarray(ext).tolist(), 'a write to the instance went through to the caller\'s array (%s, %s)' % (path, flavour)))
                 break
             before_a = observe(a)
-            ext.flat[2] = 9876.5
+            if flavour in ('array.array', 'memoryview'):
+                raw[2] = 9876.5
+            else:
+                ext.flat[2] = 9876.5
             if observe(a) != before_a:
                 out.append(('input:caller-write-seen:%s' % path, 'instance unchanged', diff_obs(before_a, observe(a))[:2], 'a later write to the caller\'s array changed the instance (%s, %s)' % (path, flavour)))
                 break
